@@ -22,6 +22,7 @@ inductive AErr
   | StructError        -- struct.error
   | WaveError          -- wave.Error
   | KeyError           -- sampleWidthDict[w]
+  | ArgumentError      -- praatio.utilities.errors.ArgumentError (a time range that ends before it starts)
 deriving DecidableEq, Repr
 
 /-- decidable equality of results (for `decide`d examples and `#guard`s) -/
@@ -35,6 +36,7 @@ def AErr.name : AErr → String
   | .StructError => "error"
   | .WaveError => "Error"
   | .KeyError => "KeyError"
+  | .ArgumentError => "ArgumentError"
 
 /-! ## Python `round` on an exact rational -/
 
@@ -67,6 +69,10 @@ instance : Sub QTime := ⟨sub⟩
 def le (a b : QTime) : Prop := a.num * b.den ≤ b.num * a.den
 instance : LE QTime := ⟨le⟩
 instance (a b : QTime) : Decidable (a ≤ b) := inferInstanceAs (Decidable (a.num * b.den ≤ b.num * a.den))
+/-- strict order of the rational values (denominators positive) -/
+def lt (a b : QTime) : Prop := a.num * b.den < b.num * a.den
+instance : LT QTime := ⟨lt⟩
+instance (a b : QTime) : Decidable (a < b) := inferInstanceAs (Decidable (a.num * b.den < b.num * a.den))
 /-- same rational value -/
 def eqv (a b : QTime) : Prop := a.num * b.den = b.num * a.den
 instance (a b : QTime) : Decidable (eqv a b) := inferInstanceAs (Decidable (a.num * b.den = b.num * a.den))
@@ -75,8 +81,14 @@ end QTime
 /-- `round(t * rate)`: the sample index addressed by time `t` -/
 def sampleAtTime (t : QTime) (rate : Nat) : Int := roundHalfEven (t.num * rate) t.den
 
-/-- `Wav._getIndexAtTime`: `round(startTime * self.frameRate) * self.sampleWidth` -/
-def indexAtTime (t : QTime) (rate width : Nat) : Int := sampleAtTime t rate * width
+/-- `min(max(i, 0), n)`: a sample index clamped into `[0, n]` -/
+def clampSample (i : Int) (n : Nat) : Nat := min i.toNat n
+
+/-- `Wav._getIndexAtTime` (as repaired, commit 300c9d2):
+`sampleIndex = round(startTime * self.frameRate); numSamples = len(self.frames) // self.sampleWidth;
+min(max(sampleIndex, 0), numSamples) * self.sampleWidth` -/
+def indexAtTime (t : QTime) (rate width nsamples : Nat) : Int :=
+  ((clampSample (sampleAtTime t rate) nsamples * width : Nat) : Int)
 
 /-! ## Python slicing of a sequence -/
 
@@ -166,24 +178,46 @@ structure Wav where
 deriving DecidableEq, Repr
 
 namespace Wav
-def index (wv : Wav) (t : QTime) : Int := indexAtTime t wv.rate wv.width
+/-- number of whole samples: `len(self.frames) // self.sampleWidth` -/
+def nsamples (wv : Wav) : Nat := wv.frames.length / wv.width
+/-- the sample boundary addressed by time `t`: nearest to `t * rate`, inside the recording -/
+def sampleIndex (wv : Wav) (t : QTime) : Nat := clampSample (sampleAtTime t wv.rate) wv.nsamples
+def index (wv : Wav) (t : QTime) : Int := indexAtTime t wv.rate wv.width wv.nsamples
 
-def getFrames (wv : Wav) (s e : QTime) : List UInt8 := getB wv.frames (wv.index s) (wv.index e)
-def getSamples (wv : Wav) (s e : QTime) : Except AErr (List Int) :=
-  convertFromBytes (wv.getFrames s e) wv.width
-def deleteSegment (wv : Wav) (s e : QTime) : Wav :=
+/-- the slicing bodies of the time-range operations (what runs after `_validateTimeRange` has accepted the range) -/
+def getFramesRaw (wv : Wav) (s e : QTime) : List UInt8 := getB wv.frames (wv.index s) (wv.index e)
+def deleteSegmentRaw (wv : Wav) (s e : QTime) : Wav :=
   { wv with frames := deleteB wv.frames (wv.index s) (wv.index e) }
 def insert (wv : Wav) (t : QTime) (g : List UInt8) : Wav :=
   { wv with frames := insertB wv.frames (wv.index t) g }
-/-- `self.deleteSegment(startTime, endTime); self.insert(startTime, frames)` -/
-def replaceSegment (wv : Wav) (s e : QTime) (g : List UInt8) : Wav :=
-  (wv.deleteSegment s e).insert s g
-def getSubwav (wv : Wav) (s e : QTime) : Wav := { wv with frames := wv.getFrames s e }
+def replaceSegmentRaw (wv : Wav) (s e : QTime) (g : List UInt8) : Wav :=
+  (wv.deleteSegmentRaw s e).insert s g
+def getSubwavRaw (wv : Wav) (s e : QTime) : Wav := { wv with frames := wv.getFramesRaw s e }
+
+/-- `_validateTimeRange(startTime, endTime)` (commit 0a07868): `if startTime > endTime: raise ArgumentError` -/
+def validateTimeRange (s e : QTime) : Except AErr Unit :=
+  if e < s then .error .ArgumentError else .ok ()
+
+/-- `Wav.getFrames`: the range is validated, then `self.frames[i:j]` -/
+def getFrames (wv : Wav) (s e : QTime) : Except AErr (List UInt8) :=
+  if e < s then .error .ArgumentError else .ok (wv.getFramesRaw s e)
+def getSamples (wv : Wav) (s e : QTime) : Except AErr (List Int) :=
+  match wv.getFrames s e with
+  | .ok fr => convertFromBytes fr wv.width
+  | .error err => .error err
+/-- `Wav.deleteSegment`: the range is validated before anything is changed -/
+def deleteSegment (wv : Wav) (s e : QTime) : Except AErr Wav :=
+  if e < s then .error .ArgumentError else .ok (wv.deleteSegmentRaw s e)
+/-- `_validateTimeRange(...)`; `self.deleteSegment(startTime, endTime); self.insert(startTime, frames)` -/
+def replaceSegment (wv : Wav) (s e : QTime) (g : List UInt8) : Except AErr Wav :=
+  if e < s then .error .ArgumentError else .ok (wv.replaceSegmentRaw s e g)
+def getSubwav (wv : Wav) (s e : QTime) : Except AErr Wav :=
+  match wv.getFrames s e with
+  | .ok fr => .ok { wv with frames := fr }
+  | .error err => .error err
 def concatenate (wv : Wav) (g : List UInt8) : Wav := { wv with frames := wv.frames ++ g }
 /-- `len(self.frames) / self.frameRate / self.sampleWidth` as a rational -/
 def duration (wv : Wav) : QTime := ⟨wv.frames.length, wv.rate * wv.width⟩
-/-- number of whole samples -/
-def nsamples (wv : Wav) : Nat := wv.frames.length / wv.width
 /-- all samples (`convertFromBytes(self.frames, self.sampleWidth)` when the length is whole) -/
 def samples (wv : Wav) : List Int := unpack wv.width wv.frames
 /-- duration of a stretch of frames at this wav's parameters: `len(g) / width / rate` -/
@@ -199,17 +233,21 @@ inductive Edit
   | sub (s e : QTime)
 deriving Repr
 
-def Edit.apply (wv : Wav) : Edit → Wav
-  | .ins t g => wv.insert t g
+def Edit.apply (wv : Wav) : Edit → Except AErr Wav
+  | .ins t g => .ok (wv.insert t g)
   | .del s e => wv.deleteSegment s e
   | .rep s e g => wv.replaceSegment s e g
-  | .cat g => wv.concatenate g
+  | .cat g => .ok (wv.concatenate g)
   | .sub s e => wv.getSubwav s e
 
-/-- the states after each edit of a history -/
-def runEdits (wv : Wav) : List Edit → List Wav
-  | [] => []
-  | e :: es => let w' := e.apply wv; w' :: runEdits w' es
+/-- the states after each edit of a history, up to the first edit that raises (its exception is the second
+component; the recording is then what it was before that edit: nothing is appended) -/
+def runEdits (wv : Wav) : List Edit → List Wav × Option AErr
+  | [] => ([], none)
+  | e :: es =>
+    match e.apply wv with
+    | .error err => ([], some err)
+    | .ok w' => let r := runEdits w' es; (w' :: r.1, r.2)
 
 /-! ## the abstract wave file, `wave.Wave_read`, `Wav.save` / `Wav.open` / `QueryWav` -/
 
@@ -239,12 +277,12 @@ def readAt (f : WavFile) (pos n : Int) : Except AErr (List UInt8) :=
 def duration (f : WavFile) : QTime := ⟨f.nframes, f.rate⟩
 end WavFile
 
-/-- `readFramesAtTime(audiofile, startTime, endTime)` (as repaired, commit fedc16f):
-`startFrame = round(frameRate * startTime); endFrame = round(frameRate * endTime);
-setpos(startFrame); readframes(max(endFrame - startFrame, 0))` -/
+/-- `readFramesAtTime(audiofile, startTime, endTime)` (as repaired, commits fedc16f, 300c9d2):
+`startFrame = min(max(round(frameRate * startTime), 0), nframes)`, `endFrame` likewise;
+`setpos(startFrame); readframes(max(endFrame - startFrame, 0))` -/
 def readFramesAtTime (f : WavFile) (s e : QTime) : Except AErr (List UInt8) :=
-  let a := roundHalfEven ((f.rate : Int) * s.num) s.den
-  let b := roundHalfEven ((f.rate : Int) * e.num) e.den
+  let a : Int := (clampSample (roundHalfEven ((f.rate : Int) * s.num) s.den) f.nframes : Nat)
+  let b : Int := (clampSample (roundHalfEven ((f.rate : Int) * e.num) e.den) f.nframes : Nat)
   f.readAt a (max (b - a) 0)
 
 /-- `Wav.save`: `wave.open(fn, "w")`, `setparams` (width must be 1..4, rate positive),
@@ -261,9 +299,10 @@ def Wav.open (f : WavFile) : Except AErr Wav :=
   | .error e => .error e
 
 namespace QueryWav
-/-- `QueryWav.getFrames(startTime=None, endTime=None)` -/
+/-- `QueryWav.getFrames(startTime=None, endTime=None)`: defaults, `_validateTimeRange`, `readFramesAtTime` -/
 def getFrames (f : WavFile) (s e : Option QTime) : Except AErr (List UInt8) :=
-  readFramesAtTime f (s.getD QTime.zero) (e.getD f.duration)
+  if e.getD f.duration < s.getD QTime.zero then .error .ArgumentError
+  else readFramesAtTime f (s.getD QTime.zero) (e.getD f.duration)
 
 def getSamples (f : WavFile) (s e : Option QTime) : Except AErr (List Int) :=
   match getFrames f s e with
